@@ -34,6 +34,7 @@ def check(ctx):
     tdvp.corner_case(ctx)
     tdvp.bath_pairing(ctx, K + "MPSBackendImpl", ["_left_to_right_update_tdvp", "_right_to_left_update_tdvp"])
     tdvp.evolve_plumbing(ctx)
+    tdvp.no_bypass(ctx)
     tdvp.solver_units_and_tolerances(ctx)
     ctx.floor("PERM-sink", 9)
     ctx.floor("STEP-mps", 30)
